@@ -675,7 +675,11 @@ func UsedReceivers() *core.Family {
 				{
 					var used, fresh types.Record
 					e1 := json.Unmarshal([]byte(first), &used)
+					kept, keptS := used, used.String() // a copy of the first value, taken before the variable is reused
 					e2 := json.Unmarshal([]byte(second), &used)
+					if e1 == nil && kept.String() != keptS {
+						t.Fail("used-receiver:Record:earlier-copy-changed", in, keptS, kept.String())
+					}
 					ef := json.Unmarshal([]byte(second), &fresh)
 					if e1 == nil && (e2 == nil) != (ef == nil) {
 						t.Fail("used-receiver:Record:error-differs", in, fmt.Sprint(ef), fmt.Sprint(e2))
@@ -686,7 +690,11 @@ func UsedReceivers() *core.Family {
 				{
 					var used, fresh types.Set
 					e1 := json.Unmarshal([]byte(first), &used)
+					kept, keptS := used, used.String() // a copy of the first value, taken before the variable is reused
 					e2 := json.Unmarshal([]byte(second), &used)
+					if e1 == nil && kept.String() != keptS {
+						t.Fail("used-receiver:Set:earlier-copy-changed", in, keptS, kept.String())
+					}
 					ef := json.Unmarshal([]byte(second), &fresh)
 					if e1 == nil && (e2 == nil) != (ef == nil) {
 						t.Fail("used-receiver:Set:error-differs", in, fmt.Sprint(ef), fmt.Sprint(e2))
@@ -697,7 +705,11 @@ func UsedReceivers() *core.Family {
 				{
 					var used, fresh types.Value
 					e1 := types.UnmarshalJSON([]byte(first), &used)
+					kept, keptS := used, fmt.Sprint(used)
 					e2 := types.UnmarshalJSON([]byte(second), &used)
+					if e1 == nil && fmt.Sprint(kept) != keptS {
+						t.Fail("used-receiver:Value:earlier-copy-changed", in, keptS, fmt.Sprint(kept))
+					}
 					ef := types.UnmarshalJSON([]byte(second), &fresh)
 					if e1 == nil && (e2 == nil) != (ef == nil) {
 						t.Fail("used-receiver:Value:error-differs", in, fmt.Sprint(ef), fmt.Sprint(e2))
@@ -711,11 +723,33 @@ func UsedReceivers() *core.Family {
 				in := fmt.Sprintf("decode %s, then %s into the same Entity", first, second)
 				var used, fresh types.Entity
 				e1 := json.Unmarshal([]byte(first), &used)
+				kept := used // a copy of the first entity (parents, attributes and tags by value)
+				keptJ, _ := json.Marshal(kept)
+				keptN := kept.Parents.Len()
 				e2 := json.Unmarshal([]byte(second), &used)
 				ef := json.Unmarshal([]byte(second), &fresh)
 				if e1 != nil || e2 != nil || ef != nil {
 					t.Fail("harness-entity-doc", in, "decodes", fmt.Sprint(e1, e2, ef))
 					return
+				}
+				if j, _ := json.Marshal(kept); !bytes.Equal(j, keptJ) || kept.Parents.Len() != keptN {
+					t.Fail("used-receiver:Entity:earlier-copy-changed", in, string(keptJ), string(j))
+				}
+				{
+					// the parent set alone, as a variable of its own
+					var us types.EntityUIDSet
+					pj1, _ := json.Marshal(kept.Parents)
+					pj2, _ := json.Marshal(fresh.Parents)
+					if err := json.Unmarshal(pj1, &us); err != nil {
+						t.Fail("harness-parents-doc", string(pj1), "decodes", err.Error())
+					}
+					k2, k2s := us, fmt.Sprint(us.Len(), us)
+					if err := json.Unmarshal(pj2, &us); err != nil || !us.Equal(fresh.Parents) {
+						t.Fail("used-receiver:EntityUIDSet", in, fmt.Sprint(fresh.Parents), fmt.Sprint(us, err))
+					}
+					if g := fmt.Sprint(k2.Len(), k2); g != k2s {
+						t.Fail("used-receiver:EntityUIDSet:earlier-copy-changed", in, k2s, g)
+					}
 				}
 				if !used.Equal(fresh) || used.Attributes.Len() != fresh.Attributes.Len() || used.Tags.Len() != fresh.Tags.Len() || used.Parents.Len() != fresh.Parents.Len() {
 					t.Fail("used-receiver:Entity", in, fmt.Sprint(fresh), fmt.Sprint(used))
